@@ -155,7 +155,9 @@ pub fn generate(seed: u64, knobs: &Knobs) -> C10Scenario {
         project.bundle = Some("path".to_owned());
         // the entry requires the others
         let others: Vec<String> = project.sources.iter().skip(1).map(|s| s.path.clone()).collect();
-        project.sources[0].requires.extend(others);
+        if !gen::is_module_folder_file(&project.sources[0].path) {
+            project.sources[0].requires.extend(others);
+        }
     }
     // entry at the top level of the cwd (the `./`-prefixed dependency case)
     let top_level_entry = project.input_is_file && rk.chance(1, 3) && !avoid("top-level-entry");
@@ -270,7 +272,11 @@ pub fn generate(seed: u64, knobs: &Knobs) -> C10Scenario {
             };
             let w = mk(&ext);
             let requirer = rp.below(world.sources.len());
-            world.sources[requirer].requires.push(w.path.clone());
+            if !(project.bundle.as_deref() == Some("luau")
+                && gen::is_module_folder_file(&world.sources[requirer].path))
+            {
+                world.sources[requirer].requires.push(w.path.clone());
+            }
             world.externals.push(w);
         }
     }
@@ -411,7 +417,9 @@ pub fn generate(seed: u64, knobs: &Knobs) -> C10Scenario {
                     use_alias: false,
                 };
                 world.next_id += 1;
-                if world.config.bundle.is_some() && !world.sources.is_empty() && rh.chance(1, 2) {
+                let luau_init = world.config.bundle.as_deref() == Some("luau")
+                    && gen::is_module_folder_file(&s.path);
+                if world.config.bundle.is_some() && !world.sources.is_empty() && rh.chance(1, 2) && !luau_init {
                     let j = rh.below(world.sources.len());
                     if !world.sources[j].use_alias {
                         s.requires.push(world.sources[j].path.clone());
@@ -430,6 +438,11 @@ pub fn generate(seed: u64, knobs: &Knobs) -> C10Scenario {
                     continue;
                 }
                 let i = rh.below(world.sources.len());
+                if world.config.bundle.as_deref() == Some("luau")
+                    && gen::is_module_folder_file(&world.sources[i].path)
+                {
+                    continue;
+                }
                 let candidates: Vec<String> = world
                     .all_lua()
                     .iter()
